@@ -21,16 +21,18 @@ import (
 )
 
 type world struct {
-	n      *sn.Node
-	m      *refmodel.TreeModel
-	blocks map[string]*pb.InternalBlock // every block ever generated (full body)
-	held   []string                     // generated, not yet offered
-	gone   map[string]bool              // removed by truncation
-	txs    map[string]*pb.Transaction
-	ops    []string
-	ts     int64
-	nonce  int
-	stats  map[string]int
+	n        *sn.Node
+	m        *refmodel.TreeModel
+	blocks   map[string]*pb.InternalBlock // every block ever generated (full body)
+	held     []string                     // generated, not yet offered
+	gone     map[string]bool              // removed by truncation
+	repeated map[string]bool              // txids that a stored side block repeats from its own chain
+	txs      map[string]*pb.Transaction
+	ops      []string
+	ts       int64
+	nonce    int
+	stats    map[string]int
+	lastDup  string
 }
 
 func (w *world) fakeTx(rng *rand.Rand) *pb.Transaction {
@@ -117,7 +119,8 @@ func (w *world) makeBlock(rng *rand.Rand, parent string, hostile string) *pb.Int
 		if len(cands) == 0 {
 			return nil
 		}
-		list = append(list, sn.CloneTx(w.txs[cands[rng.Intn(len(cands))]]))
+		w.lastDup = cands[rng.Intn(len(cands))]
+		list = append(list, sn.CloneTx(w.txs[w.lastDup]))
 	case "two-coinbase":
 		list = append(list, sn.AwardTx(sn.K(1).Address, big.NewInt(1000), w.ts+1))
 	}
@@ -279,6 +282,7 @@ func (w *world) step(rng *rand.Rand) (string, []problem) {
 		w.stats["dup-tx-side"]++
 		if st.Succ {
 			m.Confirm(string(b.Blockid), p, txids(b))
+			w.repeated[w.lastDup] = true
 		} else {
 			delete(w.blocks, string(b.Blockid))
 		}
@@ -417,6 +421,16 @@ func audit(l *ledger.Ledger, w *world, rng *rand.Rand) []problem {
 		}
 	}
 	for t := range w.txs {
+		add := add
+		if w.repeated[t] {
+			// known finding: the ledger stored a side block that repeats this transaction from
+			// its own chain; its block mapping is ambiguous from then on
+			add = func(class, f string, a ...interface{}) {
+				if len(ps) < 12 {
+					ps = append(ps, problem{"tx-map-repeated", fmt.Sprintf(f, a...)})
+				}
+			}
+		}
 		holders := where[t]
 		var mainHolders []string
 		for _, h := range holders {
@@ -548,7 +562,7 @@ func runCase(r *ev.Run, c int, nops int) {
 		return
 	}
 	defer n.Drop()
-	w = &world{n: n, blocks: map[string]*pb.InternalBlock{}, gone: map[string]bool{}, txs: map[string]*pb.Transaction{}, ts: 1000, stats: map[string]int{}}
+	w = &world{n: n, blocks: map[string]*pb.InternalBlock{}, gone: map[string]bool{}, repeated: map[string]bool{}, txs: map[string]*pb.Transaction{}, ts: 1000, stats: map[string]int{}}
 	rb, _ := n.Ledger.QueryBlock(n.Root())
 	w.m = refmodel.NewTreeModel(string(n.Root()), txids(rb))
 	for _, x := range rb.Transactions {
@@ -587,7 +601,11 @@ func runCase(r *ev.Run, c int, nops int) {
 				cls = append(cls, k)
 			}
 			sort.Strings(cls)
-			r.Violation("ledger|after-"+kind+"|"+strings.Join(cls, "+"), strings.Join(det, "\n")+"\nops: "+strings.Join(w.ops, " "),
+			sig := "ledger|after-" + kind + "|" + strings.Join(cls, "+")
+			if len(cls) == 1 && cls[0] == "tx-map-repeated" {
+				sig = "ledger|repeated-tx-on-own-chain|tx-map"
+			}
+			r.Violation(sig, strings.Join(det, "\n")+"\nops: "+strings.Join(w.ops, " "),
 				map[string]interface{}{"case": c, "seed": r.Seed, "ops": w.ops})
 			break // taint control
 		}
